@@ -99,7 +99,12 @@ def generate(rng, focus, tier="quick"):
         n_assets = rng.randrange(5, 9)
         max_pf = rng.randrange(4, 7)
     assets = ASSETS[:n_assets]
-    if rng.random() < 0.35:
+    wide = None
+    if rng.random() < (0.08 if tier == "thorough" else 0.04):
+        # very wide books: behaviour that switches on at a particular COUNT of open positions
+        wide = rng.choice([17, 33, 48, 65, 130] + ([260] if tier == "thorough" else []))
+        max_pf = rng.randrange(1, 3)
+    if wide is None and rng.random() < 0.35:
         # legal but unusual symbols: lower case, dots, a percent sign, blanks inside
         assets = rng.sample(["EQ:spy", "EQ:Brk.b", "EQ:A%B", "EQ:AAA", "EQ:aaa", "EQ:X Y", "EQ:100%", "EQ:Q"], min(n_assets, 8))
     # portfolio ids: usually p1, p2, ... in creation order; sometimes names whose sorted order differs from the
@@ -120,6 +125,8 @@ def generate(rng, focus, tier="quick"):
         fee = {"kind": "pct", "c": rng.choice(rates), "t": rng.choice(rates[:6] + [0.0, 0.0])}
         if rng.random() < 0.06:
             fee = {"kind": "pct", "c": rng.choice([0.25, 0.5, 0.9, 1.0]), "t": rng.choice([0.0, 0.1, 0.5, 1.0])}
+    if wide:
+        assets = ["EQ:W%03d" % k for k in range(wide)]
     start = timegen.start_instant(rng)
     refused_rate = 0.30 if "C15" in focus else 0.15
     if rng.random() < 0.15:
@@ -147,6 +154,7 @@ def generate(rng, focus, tier="quick"):
         "huge_cash": rng.random() < 0.03,
         "exchange_start_offset": rng.choice([0, 0, 0, -30 * DAY, 30 * DAY, 400 * DAY]),
         "int_amounts": rng.random() < 0.2,
+        "ctor_positional": rng.random() < 0.25,
     }
     if cfg["int_quotes"]:
         cfg["np_quotes"] = False
@@ -202,6 +210,15 @@ def generate(rng, focus, tier="quick"):
             op["stamp_offset"] = rng.choice([6 * 3600, DAY, 30 * DAY, -DAY])   # the Order's own timestamp is a label
         return op
 
+    if wide:
+        # open a position in every asset first, so that the book really is that wide
+        for a in assets:
+            emit({"k": "order", "pid": pids_run[0], "asset": a, "qty": {"v": rng.choice([1, 5, 10, -3, -7, 100])}})
+            sh["held"].add((pids_run[0], a))
+        _, t_w = timegen.next_instant(rng, sh["now"], "inhours")
+        sh["now"] = t_w
+        emit({"k": "tick", "t": t_w, "why": "inhours"})
+
     def fault_op():
         kind = rng.choice(enabled)
         pid = rng.choice(sh["pids"]) if sh["pids"] else pids_run[0]
@@ -215,6 +232,9 @@ def generate(rng, focus, tier="quick"):
         if kind == "overdraw_account":
             return {"k": "awd", "amt": {"of": "master", "mul": rng.choice([1.0, 1.0, 2.0]),
                                         "add": rng.choice([0.0001, 0.004, 0.01, 1.0, 1e3])}, "fault": kind}
+        if kind == "overdraw_portfolio" and rng.random() < 0.3:
+            return {"k": "pwd", "pid": pid, "amt": {"of": "pf", "zero_when_negative": rng.choice([0.0, 0.0, -0.0])},
+                    "fault": kind}
         if kind == "overdraw_portfolio":
             return {"k": "pwd", "pid": pid, "amt": {"of": "pf", "mul": rng.choice([1.0, 1.0, 2.0]),
                                                    "add": rng.choice([0.0001, 0.004, 0.01, 1.0, 1e3])}, "fault": kind}
@@ -249,8 +269,11 @@ def generate(rng, focus, tier="quick"):
                     "back": rng.choice([1, 60, 3600, DAY, 400 * DAY]), "asset": rng.choice(assets),
                     "amt": rng.choice([1.0, 100.0, -5.0]), "fault": kind}
         if kind == "pf_direct_bad_amount":
-            return {"k": "pfdirect", "pid": pid, "api": rng.choice(["sub_neg", "wd_neg", "wd_over"]),
-                    "back": 0, "asset": rng.choice(assets), "amt": rng.choice([0.01, 5.0, 1e4]),
+            api_ = rng.choice(["sub_neg", "wd_neg", "wd_over"])
+            # over the balance by a little, by a lot - or by nothing at all when the portfolio is overdrawn already
+            return {"k": "pfdirect", "pid": pid, "api": api_,
+                    "back": 0, "asset": rng.choice(assets),
+                    "amt": rng.choice([0.01, 5.0, 1e4] + ([0.0, 0.0] if api_ == "wd_over" else [])),
                     "fault": kind}
         if kind in ("neg_mark", "zero_mark"):
             return {"k": "pfdirect", "pid": pid, "api": "mark_bad", "back": 0,
@@ -355,7 +378,8 @@ def generate(rng, focus, tier="quick"):
         elif r < 0.93:
             pid = rng.choice(sh["pids"])
             a = rng.choice(assets)
-            emit({"k": "mark", "pid": pid, "asset": a, "price": max(0.01, round(sh["quotes"][a] * math.exp(rng.gauss(0, 0.05)), 4))})
+            emit({"k": "mark", "pid": pid, "asset": a, "price": max(0.01, round(sh["quotes"][a] * math.exp(rng.gauss(0, 0.05)), 4)),
+                  "via": rng.choice(["portfolio", "portfolio", "position", "position_dt"])})
         elif r < (0.955 if "C03" in focus else 0.94):
             pid = rng.choice(sh["pids"])
             a = rng.choice(assets)
@@ -500,8 +524,12 @@ def _build(cfg):
     # the exchange object may have been built for another window than the broker (its start_dt is informational)
     s.exchange = SimulatedExchange(ts(cfg["start"] + cfg.get("exchange_start_offset", 0)))
     s.ccy = cfg.get("ccy", "USD")
-    s.broker = SimulatedBroker(t0, s.exchange, s.qb, account_id="sim", base_currency=s.ccy,
-                               initial_funds=cfg["initial_funds"], fee_model=s.fee)
+    if cfg.get("ctor_positional"):
+        # the documented parameter order, given positionally
+        s.broker = SimulatedBroker(t0, s.exchange, s.qb, "sim", s.ccy, cfg["initial_funds"], s.fee)
+    else:
+        s.broker = SimulatedBroker(t0, s.exchange, s.qb, account_id="sim", base_currency=s.ccy,
+                                   initial_funds=cfg["initial_funds"], fee_model=s.fee)
     s.captured = []       # transactions seen at the portfolio seam during the current op
     s.int_amounts = cfg.get("int_amounts", False)
     return s
@@ -512,15 +540,17 @@ def make_sub_fee(fee):
     commission, a PercentFeeModel subclass that overrides only the tax hook."""
     from qstrader.broker.fee_model.zero_fee_model import ZeroFeeModel
     from qstrader.broker.fee_model.percent_fee_model import PercentFeeModel
+    # Both use the documented optional ``broker`` argument: the account's rate applies when the broker reference
+    # is handed over (as the broker and both order sizers do), a ten times dearer "list price" otherwise.
     if fee["kind"] == "subzero":
         class CommissionOnly(ZeroFeeModel):
             def _calc_commission(self, asset, quantity, consideration, broker=None):
-                return fee["c"] * abs(consideration)
+                return fee["c"] * abs(consideration) * (1.0 if broker is not None else 10.0)
         return CommissionOnly()
 
     class StampDuty(PercentFeeModel):
         def _calc_tax(self, asset, quantity, consideration, broker=None):
-            return fee["t2"] * abs(consideration)
+            return fee["t2"] * abs(consideration) * (1.0 if broker is not None else 10.0)
     return StampDuty(commission_pct=fee["c"], tax_pct=fee["t"])
 
 
@@ -597,6 +627,9 @@ def _resolve_amt(spec, s, m, pid):
             base = float(s.broker.get_portfolio_cash_balance(pid))
         else:
             base = 0.0
+    if "zero_when_negative" in spec:
+        # "nothing" is still more than an overdrawn portfolio holds; otherwise an ordinary small overdraw
+        return float(spec["zero_when_negative"]) if base < 0 else base + 0.01
     if "int_plus" in spec:
         # a Python int just above the (float) balance: exact int/float comparison says "too much"
         return int(base) + int(spec["int_plus"])
@@ -746,6 +779,8 @@ class Exec(object):
         ctx.event("run", NAME, fhex(self.cfg["initial_funds"]), self.cfg["fee"]["kind"], self.cfg["start"])
         try:
             self.after_op(None)
+            if len(self.cfg["assets"]) >= 17:
+                ctx.probe("very_wide_book")
             for i, op in enumerate(self.plan["ops"]):
                 ctx.step = i
                 self.s.captured = []
@@ -1300,6 +1335,25 @@ class Exec(object):
         if m.now < m.pfs[pid].clock or (pc is not None and m.now < pc):
             return False
         price = float(op["price"])
+        if op.get("via") in ("position", "position_dt"):
+            # the mark delivered to the Position object itself, its optional timestamp left out or given
+            try:
+                pobj = s.broker.portfolios[pid].pos_handler.positions[a]
+            except Exception:
+                return False
+            if op["via"] == "position":
+                ok, exc = self._call(pobj.update_current_price, price)
+            else:
+                ok, exc = self._call(pobj.update_current_price, price, ts(m.now))
+            ctx.event("mark", pid, a, price, ok, op["via"])
+            if not ok:
+                ctx.violate("C02", "valid_mark_refused", {"op": op, "exc": repr(exc)[:200]})
+                return False
+            m.pfs[pid].pos[a].last = price
+            if op["via"] == "position_dt":
+                m.pfs[pid].pos[a].clock = m.now
+            ctx.probe("price_mark_on_position_" + ("without_dt" if op["via"] == "position" else "with_dt"))
+            return False
         ok, exc = self._call(s.broker.portfolios[pid].update_market_value_of_asset, a, price, ts(m.now))
         ctx.event("mark", pid, a, price, ok)
         if not ok:
@@ -1769,6 +1823,8 @@ class Exec(object):
 
 
 def execute(plan, focus, trace=False):
+    from ..core import apply_host_state
+    apply_host_state(plan)
     ctx = Ctx(focus, trace=trace)
     if plan["cfg"].get("print_events"):
         # run with settings.PRINT_EVENTS = True (the shipped default); the console output goes nowhere
